@@ -87,6 +87,11 @@ type Conn struct {
 	PortTimeout       time.Duration
 	TOStyle           TimeoutStyle
 	MinReadCost       time.Duration
+	Endless           bool // once armed (ArmEndless) the receive direction never runs dry
+	endlessArmed      bool
+	endlessN          int
+	TimeoutErr        error // returned by a timed-out read instead of the bare os.ErrDeadlineExceeded (network mode)
+	DoubleCloseErr    bool  // a second Close fails with net.ErrClosed, as on real sockets
 	WDeadlineErr      error // SetWriteDeadline fails with this error
 	WDeadlineRejected int
 	WriteErr          error // next Write fails with this error ...
@@ -192,6 +197,13 @@ func (c *Conn) Push(sg ...seg) {
 	c.unlock()
 }
 
+// ArmEndless: from now on the receive direction never runs dry (Endless must be set).
+func (c *Conn) ArmEndless() {
+	c.lock()
+	c.endlessArmed = true
+	c.unlock()
+}
+
 // PushEOF marks the receive direction as closed by the peer after all queued data.
 func (c *Conn) PushEOF() {
 	c.lock()
@@ -226,6 +238,15 @@ func (c *Conn) IsClosed() bool {
 // Caller holds sim.mu (or is the scheduler at quiescence).
 func (c *Conn) availLocked(now time.Time) (n int, headErr bool, next time.Time) {
 	st := c.in
+	if c.Endless && c.endlessArmed && len(st.segs) == 0 && !st.eof {
+		// a sender that never stops: whenever the queue runs dry there is more
+		junk := make([]byte, 64)
+		for i := range junk {
+			junk[i] = byte(0xa5 ^ (c.endlessN + i))
+		}
+		c.endlessN += len(junk)
+		st.segs = append(st.segs, seg{data: junk, solo: true})
+	}
 	st.headAt(now)
 	for i := range st.segs {
 		sg := &st.segs[i]
@@ -263,6 +284,9 @@ func (c *Conn) Read(p []byte) (int, error) {
 	deadline := c.rdl
 	if c.SerialMode {
 		deadline = time.Now().Add(c.PortTimeout)
+		if !c.rdl.IsZero() && c.rdl.Before(deadline) {
+			deadline = c.rdl // a port that offers read deadlines honours the nearer one
+		}
 	}
 	var minAt time.Time
 	if c.MinReadCost > 0 {
@@ -314,6 +338,8 @@ func (c *Conn) Read(p []byte) (int, error) {
 		// timeout
 		var err error
 		switch {
+		case !c.SerialMode && c.TimeoutErr != nil:
+			err = c.TimeoutErr
 		case !c.SerialMode || c.TOStyle == TimeoutDeadline:
 			err = os.ErrDeadlineExceeded
 		case c.TOStyle == TimeoutEOF:
@@ -507,6 +533,9 @@ func (c *Conn) Close() error {
 	c.lock()
 	if c.closed {
 		c.unlock()
+		if c.DoubleCloseErr {
+			return &net.OpError{Op: "close", Net: "sim", Err: net.ErrClosed} // what a *net.TCPConn answers to a second Close
+		}
 		return nil
 	}
 	c.closed = true
